@@ -54,7 +54,7 @@ pub const MODEL: &str = r#"{
     EJ0 { v: Json } EJ1 { v: Json nullable }
     Probe { n: Integer }
     Person { name: String, age: Integer nullable, nick: String default "none", tags: Json nullable,
-             parents: [Person], pet: Pet nullable, index(name) }
+             parents: [Person], pet: Pet nullable, jd: Json default "[1]", index(name) }
     Pet { name: String }
 }
 ns { Thing { label: String, owner: Person nullable } }"#;
@@ -64,6 +64,8 @@ const CALL_TIMEOUT: Duration = Duration::from_secs(10);
 pub struct Live {
     svc: GraphDatabaseService,
     seq: u64,
+    /// id of a Person row created at start-up (value of the `$id…` parameters)
+    an_id: String,
 }
 
 pub struct World {
@@ -138,7 +140,15 @@ impl World {
         if self.live.is_none() {
             let svc = self.start(2).await?;
             let _ = svc.mutate("mutate probeinit { Probe { n: 1 } }", None).await;
-            self.live = Some(Live { svc, seq: 0 });
+            let mut an_id = String::from("AAAAAAAAAAAAAAAAAAAAAA");
+            if let Ok(js) = svc.mutate("mutate init { Person { name: \"first\" parents: [{ name: \"parent\" }] } }", None).await {
+                if let Ok(v) = serde_json::from_str::<serde_json::Value>(&js) {
+                    if let Some(id) = v.get("Person").and_then(|p| p.get("id")).and_then(|i| i.as_str()) {
+                        an_id = id.to_string();
+                    }
+                }
+            }
+            self.live = Some(Live { svc, seq: 0, an_id });
         }
         self.live.as_mut()
     }
@@ -236,7 +246,7 @@ impl World {
 
     /// parameters by naming convention: $i.. Integer, $s.. String, $f.. Float, $b.. Boolean, $n.. Null,
     /// $x.. base64, $j.. JSON text; anything else a string
-    fn params_for(text: &str) -> Parameters {
+    fn params_for(text: &str, an_id: &str) -> Parameters {
         let mut p = Parameters::new();
         let chars: Vec<char> = text.chars().collect();
         let mut i = 0;
@@ -249,6 +259,7 @@ impl World {
                 let name: String = chars[i + 1..j].iter().collect();
                 if !name.is_empty() && !p.params.contains_key(&name) {
                     let v = match name.chars().next().unwrap() {
+                        'i' if name.starts_with("id") => ParamValue::String(an_id.to_string()),
                         'i' => ParamValue::Integer(7),
                         'f' => ParamValue::Float(1.5),
                         'b' => ParamValue::Boolean(true),
@@ -290,7 +301,7 @@ impl World {
             let Some(l) = self.live().await else { return "no-instance".into() };
             l.seq += 1;
             let svc = l.svc.clone();
-            let params = Self::params_for(&text);
+            let params = Self::params_for(&text, &l.an_id);
             let r = match k.as_str() {
                 "query" => tokio::time::timeout(CALL_TIMEOUT, svc.query(&text, Some(params))).await.map(|r| r.map(|_| ())),
                 "mutation" => tokio::time::timeout(CALL_TIMEOUT, svc.mutate(&text, Some(params))).await.map(|r| r.map(|_| ())),
@@ -312,7 +323,14 @@ impl World {
         }
         if outcome == "err:Sql" && accept {
             // the request went through the grammar and the semantic checks and the storage engine refused the statement
-            let sig = if Self::has_keyword_identifier(&text) { "sql-keyword-identifier" } else { "engine-rejects-valid-request" };
+            let selects_json_default = k == "query" && text.split(|c: char| !(c.is_alphanumeric() || c == '_')).any(|t| t == "jd");
+            let sig = if selects_json_default {
+                "json-default-unclosed-ifnull"
+            } else if Self::has_keyword_identifier(&text) {
+                "sql-keyword-identifier"
+            } else {
+                "engine-rejects-valid-request"
+            };
             self.flag(sig, &format!("{}: {}", k, text.chars().take(160).collect::<String>()));
         }
         if k != "dataModel" {
